@@ -49,6 +49,8 @@ class RouterWorld:
         self.ids = {v: k for k, v in self.addr.items()}
         self.next_pair = 10
         self.adders = {}        # generator memory: pair id -> initial liquidity adder
+        self.creators = {}      # generator memory: pair id -> (creator, creation block)
+        self.feedests = {}      # generator memory: pair id -> [(destination, token)] set through the router
         self.last = self.observe_state()
 
     def close(self):
@@ -128,6 +130,7 @@ class RouterWorld:
                 self.addr[na] = new
                 self.ids[new] = na
                 self.pairs[na] = dict(t1=a, t2=b, via_router=True)
+                self.creators[na] = (c, self.block)
                 for t in range(1, NTOK + 1):
                     vm.roles(new, T[t], ["ESDTRoleLocalBurn"])
                 outs = [na]
@@ -156,6 +159,10 @@ class RouterWorld:
         elif k in ("RSetFeeOn", "RSetFeeOff"):
             _, c, ad, dest, tok = op
             r = vm.call(A[c], R, "setFeeOn" if k == "RSetFeeOn" else "setFeeOff", [A[ad], A[dest], T[tok]])
+            if r.ok and k == "RSetFeeOn":
+                self.feedests.setdefault(ad, []).append((dest, tok))
+            if r.ok and k == "RSetFeeOff":
+                self.feedests[ad].remove((dest, tok))
         elif k == "SetLocalRoles":
             _, c, ad = op
             r = vm.call(A[c], R, "setLocalRoles", [A[ad]])
@@ -378,9 +385,16 @@ def bootstrap_step(rng, w, s, pid):
     reg = pid in registered_ids(s)
     users = list(range(1, NUSERS + 1))
     if p["lp"] == 0:
+        if reg and pid in w.creators and rng.random() < 0.22:
+            cr, blk = w.creators[pid]
+            who = cr if rng.random() < 0.7 else rng.choice(users + [OWNER])
+            return ["IssueLp", who, pid]
         return ["SetLp", OWNER, pid]
     if p["S"] == 0:
-        a1, a2 = log_amount(rng, 10 ** rng.choice([6, 9, 12, 18, 24])) + 2000, log_amount(rng, 10 ** rng.choice([6, 9, 12, 18, 24])) + 2000
+        a1 = rng.randint(1, 9) * 10 ** rng.choice([4, 5, 6, 8, 10, 12, 15, 18]) + rng.randint(1001, 3000)
+        ratio = rng.choice([1, 1, 2, 3, 7, 10, 100, 1000])
+        a2 = a1 * ratio if rng.random() < 0.5 else max(2001, a1 // ratio)
+        a2 += rng.randint(0, 999)
         adder = w.adders.get(pid)
         if adder:
             if p["state"] != 0:
@@ -426,14 +440,14 @@ def gen_multiswap(rng, w, s):
     else:
         rin0 = 10 ** 6
     cls = rng.random()
-    if cls < 0.55:
+    if cls < 0.7:
+        amt = max(1, rin0 // rng.choice([2, 3, 5, 10, 20, 50, 100, 1000]) + rng.randint(-2, 2))
+    elif cls < 0.82:
         amt = log_amount(rng, max(10, rin0 * 3))
-    elif cls < 0.7:
-        amt = max(1, rin0 // rng.choice([1, 2, 10, 100, 1000]) + rng.randint(-2, 2))
-    elif cls < 0.8:
+    elif cls < 0.88:
         amt = rng.randint(1, 30)
     else:
-        amt = log_amount(rng, max(10, rin0 // 10))
+        amt = rin0 * rng.choice([1, 2, 10]) + rng.randint(0, 9)
     cur = amt
     foreign_at = rng.randrange(n) if bad < 0.14 else None
     for i in range(n):
@@ -457,7 +471,8 @@ def gen_multiswap(rng, w, s):
             hops.append([ad, rng.choice([0, 1]), tw, max(1, cur // 3)])
             cur_t, cur = tw, max(1, cur // 3)
             continue
-        ad = rng.choice(cands)
+        fresh_c = [x for x in cands if not hops or x != hops[-1][0]]
+        ad = rng.choice(fresh_c) if fresh_c and rng.random() < 0.8 else rng.choice(cands)
         p = sim[ad]
         fwd = p["t1"] == cur_t
         tw = p["t2"] if fwd else p["t1"]
@@ -465,10 +480,10 @@ def gen_multiswap(rng, w, s):
         fee = p["fee"]
         spec = cur * p["sfee"] // M if p["fee_on"] else 0
         fr = rng.random()
-        if fr < 0.03:
+        if fr < 0.015:
             hops.append([ad, rng.choice([2, 3]), tw, 1])
             continue
-        if fr < 0.06:
+        if fr < 0.03:
             tw = rng.choice([t for t in range(0, NTOK + 1) if t != tw])
         if fr < 0.55:
             exp = amount_out(fee, cur, ri, ro)
@@ -500,9 +515,9 @@ def gen_multiswap(rng, w, s):
         cur_t, cur = tw, max(0, out)
         if cur == 0:
             cur = 1
-    if bad > 0.97:
+    if bad > 0.985:
         hops = []
-    if 0.95 < bad <= 0.97:
+    if 0.97 < bad <= 0.985:
         amt = 0
     return ["MultiSwap", c, tin, amt, hops]
 
@@ -521,7 +536,7 @@ def gen_op(rng, w, stats):
     if w.cfg["style"] != "owner" and not s["creation"] and rng.random() < 0.25:
         return ["SetCreation", OWNER, True]
     # bootstrap: enough live registered pairs
-    if len(good) < w.cfg["target"] and rng.random() < 0.8:
+    if len(good) < w.cfg["target"] and rng.random() < 0.93:
         pending = [pid for pid in reg if not live(pairs[pid])]
         if pending and rng.random() < 0.85:
             st = bootstrap_step(rng, w, s, rng.choice(pending))
@@ -579,7 +594,10 @@ def gen_op(rng, w, stats):
             tok = rng.choice([pairs[ad]["t1"], pairs[ad]["t2"]])
         else:
             tok = rng.randint(1, NTOK)
-        return [rng.choice(["RSetFeeOn", "RSetFeeOn", "RSetFeeOff"]), c, ad, dest, tok]
+        kind = rng.choice(["RSetFeeOn", "RSetFeeOn", "RSetFeeOff"])
+        if kind == "RSetFeeOff" and w.feedests.get(ad) and rng.random() < 0.8:
+            dest, tok = rng.choice(w.feedests[ad])
+        return [kind, c, ad, dest, tok]
     if roll < 0.74:
         return ["SetLocalRoles", rng.choice(users + [OWNER]), anyaddr()]
     if roll < 0.78:
